@@ -87,6 +87,8 @@ def run(rep, build, tier, seed):
             bc.data.decode("ascii")
         except UnicodeDecodeError:
             continue
+        if b"\x00" in bc.data:
+            continue          # UTF-16/32 without BOM decodes as ASCII with NULs: a byte-level terminator conversion would corrupt it
         lf = normalise(bc.data)
         if not lf.endswith(b"\n") or lf.count(b"\n") < 2:
             continue
@@ -96,13 +98,16 @@ def run(rep, build, tier, seed):
             continue
         if len(groups) >= nc + ng + 1:
             break
-        g = {"label": bc.label, "runs": {}}
+        g = {"label": bc.label, "runs": {},
+             "regions": bool(b"INDENT-OFF" in lf or re.search(r"(?mi)^\s*(disable_processing|enable_processing|processing_cmt)", base_cfg) or re.search(rb"#\s*pragma\s+asm|#\s*asm\b", lf))}
         for setting in ["lf", "crlf", "cr", "auto"]:
             for how in ["lf", "crlf", "cr", "mixed"]:
                 c = rc.Case("%s|in=%s|newlines=%s" % (bc.label, how, setting), bc.lang, base_cfg + "\nnewlines = %s\n" % setting, convert(r, lf, how))
                 c.group, c.setting, c.how = g, setting, how
                 cases.append(c)
-        if lf.count(b"\n") >= 12 and b"INDENT-OFF" not in lf:
+        # the majority is counted outside disabled regions: inputs/configurations with such regions are not used for the majority oracle
+        if lf.count(b"\n") >= 12 and b"INDENT-OFF" not in lf and not re.search(r"(?mi)^\s*(disable_processing|enable_processing|processing_cmt)", base_cfg) \
+                and not re.search(rb"#\s*pragma\s+asm|#\s*asm\b", lf):
             for how in SKEWS:
                 data = convert(r, lf, how)
                 for setting in ["auto", SKEWS[how][0]]:
@@ -145,6 +150,8 @@ def run(rep, build, tier, seed):
                                 {"kind": "format", "label": au[2].label, "lang": au[2].lang, "cfg": au[2].cfg_text, "cfg_path": None, "input_b64": common.b64(au[2].data)})
         for how in ["lf", "crlf", "cr"]:
             au, fx = runs.get(("auto", how)), runs.get((how, how))
+            if g.get("regions"):
+                continue          # terminators inside disabled regions are not counted: the census of such a file is not its line count
             if au and fx and au[0] == 0 and fx[0] == 0 and au[1] != fx[1]:
                 rep.finding("auto|%s|%s" % (g["label"], how), "newlines=auto on a pure %s input does not use %s for %s" % (how, how, g["label"]),
                             {"kind": "format", "label": au[2].label, "lang": au[2].lang, "cfg": au[2].cfg_text, "cfg_path": None, "input_b64": common.b64(au[2].data)})
